@@ -329,6 +329,7 @@ func g16RewriteGuard(r *Repo, rep *Report) {
 	}
 	info := fi.Pkg.TypesInfo
 	par := parents(fi.Decl)
+	g := newGraph(fi.Decl.Body, mayReturnFn(info))
 	n := 0
 	ast.Inspect(fi.Decl.Body, func(m ast.Node) bool {
 		c, ok := m.(*ast.CallExpr)
@@ -342,46 +343,79 @@ func g16RewriteGuard(r *Repo, rep *Report) {
 		n++
 		path := exprStr(c.Args[0])
 		guarded := false
-		for x := ast.Node(c); x != nil && !guarded; x = par[x] {
-			blk, ok := par[x].(*ast.BlockStmt)
-			if !ok {
-				continue
+		ob, _ := g.locate(c.Pos())
+		// a complete parse of that very path whose failure cannot reach the opening: parser.ParseFile(fset, path, nil, …), or
+		// with the bytes os.ReadFile(path) returned, and the error tested
+		ast.Inspect(fi.Decl.Body, func(k ast.Node) bool {
+			pc, ok := k.(*ast.CallExpr)
+			if !ok || guarded || ob == nil || !isPkgFunc(callee(info, pc), "go/parser", "ParseFile") || len(pc.Args) < 3 || exprStr(pc.Args[1]) != path {
+				return true
 			}
-			for _, st := range blk.List {
-				if st == x {
-					break
+			if !isNilIdent(info, pc.Args[2]) {
+				// the source: a variable defined once, by os.ReadFile of the same path
+				sid, ok := ast.Unparen(pc.Args[2]).(*ast.Ident)
+				if !ok {
+					return true
 				}
-				is, ok := st.(*ast.IfStmt)
-				if !ok || is.Init == nil || is.Else != nil || len(is.Body.List) == 0 {
+				defs, fromFile := 0, false
+				ast.Inspect(fi.Decl.Body, func(d ast.Node) bool {
+					das, ok := d.(*ast.AssignStmt)
+					if !ok {
+						return true
+					}
+					for _, l := range das.Lhs {
+						if lid, ok := l.(*ast.Ident); ok && (info.Defs[lid] == info.Uses[sid] || info.Uses[lid] == info.Uses[sid]) {
+							defs++
+							if len(das.Rhs) == 1 {
+								if rc, ok := das.Rhs[0].(*ast.CallExpr); ok && isPkgFunc(callee(info, rc), "os", "ReadFile") && len(rc.Args) == 1 && exprStr(rc.Args[0]) == path {
+									fromFile = true
+								}
+							}
+						}
+					}
+					return true
+				})
+				if defs != 1 || !fromFile {
+					return true
+				}
+			}
+			as, ok := par[pc].(*ast.AssignStmt)
+			if !ok || len(as.Rhs) != 1 || len(as.Lhs) == 0 {
+				return true
+			}
+			eid, ok := as.Lhs[len(as.Lhs)-1].(*ast.Ident)
+			if !ok {
+				return true
+			}
+			errObj := info.Defs[eid]
+			if errObj == nil {
+				errObj = info.Uses[eid]
+			}
+			if errObj == nil {
+				return true
+			}
+			for _, b := range g.Blocks {
+				if len(b.Succs) != 2 || len(b.Nodes) == 0 {
 					continue
 				}
-				as, ok := is.Init.(*ast.AssignStmt)
-				if !ok || len(as.Rhs) != 1 {
+				cond, isE := b.Nodes[len(b.Nodes)-1].(ast.Expr)
+				if !isE || cond.Pos() < pc.Pos() {
 					continue
 				}
-				pc, ok := as.Rhs[0].(*ast.CallExpr)
-				if !ok || !isPkgFunc(callee(info, pc), "go/parser", "ParseFile") || len(pc.Args) < 3 || exprStr(pc.Args[1]) != path {
+				op, isCmp := nilCompare(info, cond, errObj)
+				if !isCmp {
 					continue
 				}
-				// the source argument must be nil (read the file itself) and the error branch must leave
-				if !isNilIdent(info, pc.Args[2]) {
-					continue
+				failed := b.Succs[0]
+				if op == token.EQL {
+					failed = b.Succs[1]
 				}
-				errObj := types.Object(nil)
-				if id, ok := as.Lhs[len(as.Lhs)-1].(*ast.Ident); ok {
-					errObj = info.Defs[id]
-				}
-				if errObj == nil {
-					continue
-				}
-				if op, ok := nilCompare(info, is.Cond, errObj); !ok || op != token.NEQ {
-					continue
-				}
-				if _, isRet := is.Body.List[len(is.Body.List)-1].(*ast.ReturnStmt); isRet {
+				if g.dominates(b, ob) && failed != ob && !g.reachable([]*cfg.Block{failed}, nil)[ob] {
 					guarded = true
 				}
 			}
-		}
+			return true
+		})
 		if guarded {
 			rep.pass("G16")
 			rep.sample(map[string]string{"rule": "G16 rewrite only after a complete parse", "site": r.pos(c.Pos()), "path": path})
